@@ -261,16 +261,19 @@ public:
         if (dims == _view.dimensions() && _align_in_bytes == alignment)
             return;
 
+        std::size_t const old_alignment = _align_in_bytes;
         _align_in_bytes = alignment;
 
         if (_allocated_bytes >= total_allocated_size_in_bytes(dims))
         {
             destruct_pixels(_view);
             create_view(dims, std::integral_constant<bool, IsPlanar>());
-            default_construct_pixels(_view);
+            try { default_construct_pixels(_view); }
+            catch (...) { _view = view_t(); throw; } // the old pixels are gone: leave an empty image
         }
         else
         {
+            _align_in_bytes = old_alignment; // constructing tmp may throw; swap() brings the new value
             image tmp(dims, alignment, Alloc(_alloc));
             swap(tmp);
         }
@@ -286,16 +289,19 @@ public:
         if (dims == _view.dimensions() && _align_in_bytes == alignment)
             return;
 
+        std::size_t const old_alignment = _align_in_bytes;
         _align_in_bytes = alignment;
 
         if (_allocated_bytes >= total_allocated_size_in_bytes(dims))
         {
             destruct_pixels(_view);
             create_view(dims, typename std::integral_constant<bool, IsPlanar>());
-            uninitialized_fill_pixels(_view, p_in);
+            try { uninitialized_fill_pixels(_view, p_in); }
+            catch (...) { _view = view_t(); throw; } // the old pixels are gone: leave an empty image
         }
         else
         {
+            _align_in_bytes = old_alignment; // constructing tmp may throw; swap() brings the new value
             image tmp(dims, p_in, alignment, Alloc(_alloc));
             swap(tmp);
         }
@@ -312,16 +318,19 @@ public:
         if (dims == _view.dimensions() && _align_in_bytes == alignment && alloc_in == _alloc)
             return;
 
+        std::size_t const old_alignment = _align_in_bytes;
         _align_in_bytes = alignment;
 
         if (_allocated_bytes >= total_allocated_size_in_bytes(dims))
         {
             destruct_pixels(_view);
             create_view(dims, std::integral_constant<bool, IsPlanar>());
-            default_construct_pixels(_view);
+            try { default_construct_pixels(_view); }
+            catch (...) { _view = view_t(); throw; } // the old pixels are gone: leave an empty image
         }
         else
         {
+            _align_in_bytes = old_alignment; // constructing tmp may throw; swap() brings the new value
             image tmp(dims, alignment, alloc_in);
             swap(tmp);
         }
@@ -337,16 +346,19 @@ public:
         if (dims == _view.dimensions() && _align_in_bytes == alignment && alloc_in == _alloc)
             return;
 
+        std::size_t const old_alignment = _align_in_bytes;
         _align_in_bytes = alignment;
 
         if (_allocated_bytes >= total_allocated_size_in_bytes(dims))
         {
             destruct_pixels(_view);
             create_view(dims, std::integral_constant<bool, IsPlanar>());
-            uninitialized_fill_pixels(_view, p_in);
+            try { uninitialized_fill_pixels(_view, p_in); }
+            catch (...) { _view = view_t(); throw; } // the old pixels are gone: leave an empty image
         }
         else
         {
+            _align_in_bytes = old_alignment; // constructing tmp may throw; swap() brings the new value
             image tmp(dims, p_in, alignment, alloc_in);
             swap(tmp);
         }
